@@ -377,7 +377,7 @@ example : checkInputSection fs {} inputSchemas
 example : checkInputSection fs {} inputSchemas
     (userOf [("img", .str "l.tif"), ("disp", .list [.int (-2), .int 2]), ("mask", .str "small.tif")] [("img", .str "r.tif")]) =
     .error .attr := by decide
-example : checkInputSection fs {} inputSchemas
-    (userOf [("img", .str "l.tif"), ("disp", .list [.int 5])] [("img", .str "r.tif")]) = .error .index := by decide
+example : okOf (checkInputSection fs {} inputSchemas
+    (userOf [("img", .str "l.tif"), ("disp", .list [.int 5])] [("img", .str "r.tif")])) = false := by decide
 
 end Pandora.C17
